@@ -178,14 +178,15 @@ def eos_negative_controls(ctx, events):
 
 
 # ----------------------------------------------------------------------------- QHA part
-QHA_INV = ["TypeOK", "InvIndexSafety", "InvCompletes", "InvLength", "InvPerTemperatureElectronic", "InvPhononUnit",
-           "InvPressureSign", "InvRecovery", "InvBulkModulusObject", "InvThermalExpansion", "InvHeatCapacity",
-           "InvHeatCapacityPolyfit", "InvGruneisen", "InvUnits"]
-QHA_IMPL = ["ImplExact", "ImplCompletes", "ImplLength", "ImplPerTemperatureElectronic", "ImplPhononUnit",
-            "ImplPressureSign", "ImplRecoverVolume", "ImplRecoverGibbs", "ImplRecoverBulk", "ImplBulkModulusObject",
-            "ImplThermalExpansion", "ImplHeatCapacity", "ImplHeatCapacityPolyfit", "ImplGruneisen"]
+QHA_INV = ["TypeOK", "InvIndexSafety", "InvRefuses", "InvCompletes", "InvFailedFitReported", "InvLength",
+           "InvPerTemperatureElectronic", "InvPhononUnit", "InvPressureSign", "InvRecovery", "InvBulkModulusObject",
+           "InvThermalExpansion", "InvHeatCapacity", "InvHeatCapacityPolyfit", "InvGruneisen", "InvFiles", "InvUnits"]
+QHA_IMPL = ["ImplExact", "ImplRefuses", "ImplCompletes", "ImplFailedFitReported", "ImplFitStart", "ImplLength",
+            "ImplPerTemperatureElectronic", "ImplPhononUnit", "ImplPressureSign", "ImplRecoverVolume",
+            "ImplRecoverGibbs", "ImplRecoverBulk", "ImplBulkModulusObject", "ImplThermalExpansion", "ImplHeatCapacity",
+            "ImplHeatCapacityPolyfit", "ImplGruneisen", "ImplFiles"]
 QHA_CONF = ["ConformsStatus", "ConformsLen", "ConformsRows", "ConformsBulkModulus", "ConformsTables",
-            "ConformsStencils"]
+            "ConformsStencils", "ConformsFiles"]
 
 CFG_QHA = """INIT Init
 NEXT Next
@@ -197,6 +198,7 @@ INVARIANT Emit
 
 MC_QHA = """---- MODULE MC_Qha ----
 EXTENDS Qha
+ASSUME PrintT(<<"FILESPECS", FileSpecs>>)
 MCInputs == {%s}
 ====
 """
@@ -272,7 +274,89 @@ def make_case(cid, T, tmax, shape, P, eos, rng, mode, degrees=None, perturbed=Fa
     c = L.Case(cid, T, tmax, shape, P, eos, vpoly, epoly, bpoly, bppoly, qp, cv, s, 40, [0.0], perturb=perturb,
                mode=mode)
     c.volumes = vol_grid([c.ptab, c.qtab], rng)
+    if nT >= 3 and rng.random() < 0.15:
+        # heat capacity below the cutoff of the Gruneisen routine at one temperature (C_V = 0 or negative)
+        k = rng.randint(1, nT - 1)
+        c.cvtab[k] = [Fr(0), Fr(0), Fr(0)] if rng.random() < 0.6 else [Fr(-1, 2), Fr(0), Fr(0)]
+    c.wf = rng.random() < 0.2
     return c
+
+
+def custom_ptab(T, v0s, rng):
+    return [dict(E0=Fr(-10) - Fr(t, 1000), B0=Fr(1, 2), Bp=Fr(4), V0=Fr(v)) for t, v in zip(T, v0s)]
+
+
+def gen_deep_cases(ctx, cases):
+    """Degenerate and failing inputs (families F1..F8 of the deepening round)."""
+    rng = ctx.rng
+    n_each = 1 if ctx.quick else 3
+
+    def add(T, tmax, shape, P, eos, mode, family, **kw):
+        c = make_case(len(cases) + 1, T, tmax, shape, P, eos, rng, mode, **kw)
+        c.family = family
+        c.wf = False
+        cases.append(c)
+        return c
+
+    grid = [0, 10, 20, 30, 40, 50]
+    for rep in range(n_each):
+        for ei, eos in enumerate(EOS_NAMES):
+            shape = ["V", "TV"][(ei + rep) % 2]
+            P = [None, Fr(2), Fr(10)][(ei + rep) % 3]
+            # F1 injected failures of the fit: TypeError / RuntimeError at one temperature, at the BulkModulus fit
+            for mode in ("stub", "real"):
+                for pos in (0, 2, 4, 5):
+                    c = add(grid, None, shape, P, eos, mode, "F1 fit raises TypeError at one temperature")
+                    c.inject[("qha", pos)] = "typeerror"
+                c = add(grid, 25, shape, P, eos, mode, "F1 fit raises TypeError at one temperature")
+                c.inject[("qha", 1)] = "typeerror"
+                c = add(grid, None, shape, P, eos, mode, "F1 fit raises TypeError at two temperatures")
+                c.inject[("qha", 1)] = "typeerror"
+                c.inject[("qha", 2)] = "typeerror"
+            c = add(grid, None, shape, P, eos, "stub", "F1 fit raises RuntimeError at one temperature")
+            c.inject[("qha", 2)] = "runtimeerror"
+            c = add(grid, None, shape, P, eos, "stub", "F1 BulkModulus fit raises")
+            c.inject[("bulkmodulus", 0)] = ["typeerror", "runtimeerror"][rep % 2]
+            # F2 scipy's leastsq does not converge (volumes far below the equilibrium volume of the later curves)
+            for far in (40, 60):
+                T = [0, 10, 20, 30, 40]
+                c = add(T, None, shape, None, eos, "real", "F2 leastsq does not converge")
+                c.ptab = custom_ptab(T, [Fr(15, 2), Fr(38, 5), Fr(far), Fr(far) + 1, Fr(far) + 2], rng)
+                c.poly_set = False
+                c.qtab = [dict(E0=Fr(-9) + Fr(j, 8), B0=Fr(1, 2), Bp=Fr(4), V0=Fr(71, 10)) for j in range(len(c.qtab))]
+                c.volumes = np.linspace(5.0, 9.0, 7)
+                c.vref = 7
+                c.cvtab = [[Fr(25 + k), Fr(0), Fr(0)] for k in range(len(T))]
+                c.stab = [[Fr(10 + k), Fr(1, 2), Fr(0)] for k in range(len(T))]
+            # F5 integer number types of electronic energies / volumes, with and without pressure
+            for eld, vold in (("int", "float"), ("float", "int"), ("int", "int")):
+                for Pi in (None, Fr(0), Fr(2), Fr(10)):
+                    c = add(grid, None, shape, Pi, eos, "stub" if eld == "float" else "real", "F5 integer input arrays")
+                    c.eldtype, c.voldtype = eld, vold
+                    c.volumes = np.arange(34.0, 48.0, 2.0)
+                    if eld == "int":
+                        c.qtab = [dict(E0=Fr(-9) + Fr(j, 4), B0=Fr(3, 5), Bp=Fr(9, 2), V0=Fr(39)) for j in range(len(c.qtab))]
+            # F6 temperature sequences that are not strictly ascending
+            for T in ([50, 40, 30, 20, 10, 0], [0, 10, 10, 20, 30], [0, 20, 10, 30, 40], [10, 10, 10], [30, 20]):
+                for tm in (None, 25):
+                    add(T, tm, shape, P, eos, "stub", "F6 temperatures not strictly ascending")
+            # F7 fewer distinct volumes than the fits need
+            for vols, fam in (([40.0] * 7, "F7 all volumes equal"),
+                              ([38.0, 38.0, 40.0, 40.0, 42.0, 42.0, 42.0], "F7 three distinct volumes"),
+                              ([37.0, 37.0, 39.0, 41.0, 41.0, 43.0, 43.0], "F7 four distinct volumes"),
+                              ([36.0, 38.0, 38.0, 40.0, 42.0, 44.0, 44.0], "F7 five distinct volumes (valid)")):
+                for mode in ("stub", "real"):
+                    if mode == "real" and len(set(vols)) < 5:
+                        continue
+                    c = add(grid, None, shape, P, eos, mode, fam)
+                    c.volumes = np.array(vols)
+            # F8 electronic (T,V) table with another number of rows than temperatures
+            for dq in (2, -1, -3):
+                for tm in (None, 15):
+                    c = add(grid, tm, "TV", P, eos, "stub", "F8 electronic rows != temperatures")
+                    nq = len(grid) + dq
+                    c.qtab = q_pars(nq, rng)
+    ctx.extra["deep_cases"] = len([c for c in cases if c.family != "main"])
 
 
 def tmax_candidates(T):
@@ -331,12 +415,14 @@ def gen_cases(ctx):
             shape = rng.choice(["V", "TV"])
             P = rng.choice(PRESSURES)
             add(T, tm, shape, P, rng.choice(EOS_NAMES), rng, mode, perturbed=(rng.random() < 0.25))
+    cases[0].wf = True
+    gen_deep_cases(ctx, cases)
     return cases
 
 
 TOL = dict(
-    stub=dict(bm=1e-9, vol=1e-9, gibbs=1e-9, bulk=1e-9, beta=1e-8, cp=1e-7, cpfit=1e-6, gru=1e-6),
-    real=dict(bm=1e-6, vol=1e-6, gibbs=1e-6, bulk=1e-6, beta=1e-5, cp=1e-4, cpfit=1e-5, gru=1e-5),
+    stub=dict(bm=1e-9, vol=1e-9, gibbs=1e-9, bulk=1e-9, beta=1e-8, cp=1e-7, cpfit=1e-6, gru=1e-6, dsdv=1e-6),
+    real=dict(bm=1e-6, vol=1e-6, gibbs=1e-6, bulk=1e-6, beta=1e-5, cp=1e-4, cpfit=1e-5, gru=1e-5, dsdv=1e-5),
 )
 
 
@@ -351,14 +437,16 @@ def parse_out(stdout):
 def seqs(o):
     """TLC prints an empty sequence as <<>> and a sequence of pairs as a list: normalise."""
     r = dict(o)
-    for k in ("vol", "gibbs", "bulk", "beta", "cp", "cpfit", "gru", "bm", "bmpar", "rows"):
+    for k in ("vol", "gibbs", "bulk", "beta", "cp", "cpfit", "gru", "bm", "bmpar", "rows", "files"):
         r[k] = [list(x) if isinstance(x, (list, tuple)) else x for x in (o.get(k) or [])]
     return r
 
 
 def case_detail(c, extra=None):
-    d = dict(id=c.id, mode=c.mode, eos=c.eos, temperatures=c.T, t_max=c.tmax, shape=c.shape,
+    d = dict(id=c.id, family=c.family, mode=c.mode, eos=c.eos, temperatures=c.T, t_max=c.tmax, shape=c.shape,
              pressure=None if c.P is None else str(c.P), volumes=c.volumes.tolist(),
+             electronic_dtype=c.eldtype, volume_dtype=c.voldtype, injected={"%s#%d" % k: v for k, v in c.inject.items()},
+             fit_outcomes=dict(bulkmodulus=c.bmplan, qha=c.fitplan),
              ptab=[{k: str(v) for k, v in p.items()} for p in c.ptab],
              qtab=[{k: str(v) for k, v in p.items()} for p in c.qtab],
              cvtab=[[str(x) for x in r] for r in c.cvtab], stab=[[str(x) for x in r] for r in c.stab])
@@ -422,13 +510,30 @@ def corrupt(e, what):
         c["exact"] = False
     elif what == "bmpar":
         o["bmpar"][0]["V0"] = [o["bmpar"][0]["V0"][0] + 1, o["bmpar"][0]["V0"][1]]
+    elif what == "file":
+        v = o["files"][0]["trows"][1][1]
+        o["files"][0]["trows"][1][1] = [v[0] + 1, v[1]]
+    elif what == "filefmt":
+        o["files"][2]["fmtok"] = False
+    elif what == "start":
+        o["starts"] = ["own", "prev"]
+    elif what == "failedfit":  # the environment let the second fit fail, the result pretends nothing happened
+        c["inp"]["fitplan"][1] = "nonconv"
+    elif what == "staleparams":  # a TypeError at the second temperature, whose row is still returned
+        c["inp"]["fitplan"][1] = "typeerror"
+    elif what == "descending":  # a result although the temperatures are not ascending
+        c["inp"]["T"] = list(reversed(c["inp"]["T"]))
+    elif what == "fewvolumes":
+        c["inp"]["nvd"] = 3
     return c
 
 
 CONTROLS = dict(vol="ImplRecoverVolume", gibbs="ImplRecoverGibbs", bulk="ImplRecoverBulk",
                 el="ImplPerTemperatureElectronic", pvsign="ImplPressureSign", phunit="ImplPhononUnit",
                 len="ImplLength", beta="ImplThermalExpansion", cp="ImplHeatCapacity", exact="ImplExact",
-                bmpar="ImplBulkModulusObject")
+                bmpar="ImplBulkModulusObject", file="ImplFiles", filefmt="ImplFiles", start="ImplFitStart",
+                failedfit="ImplFailedFitReported", staleparams="ImplFailedFitReported", descending="ImplRefuses",
+                fewvolumes="ImplRefuses")
 
 
 def negative_controls(ctx, events):
@@ -440,7 +545,7 @@ def negative_controls(ctx, events):
         if (c.shape == "TV" and c.P is not None and c.P != 0 and c.poly_set and e["obs"]["len"] >= 3
                 and e["obs"]["status"] == "ok" and e["exact"] and len(c.T) > 3
                 and all(c.T[k + 1] - c.T[k] == c.T[1] - c.T[0] for k in range(len(c.T) - 1))
-                and c.vpoly[2] != 0):
+                and c.vpoly[2] != 0 and c.wf and e["obs"]["files"] and c.family == "main"):
             base = e
             break
     if base is None:
@@ -457,8 +562,10 @@ def negative_controls(ctx, events):
     failing = failed_clauses(r.stdout)
     names = set(n for n, _ in r.violations)
     for what, clause in CONTROLS.items():
-        if clause not in failing.get(ids[what], []) or clause not in names:
+        if clause not in failing.get(ids[what], []):
             missed.append((what, clause, failing.get(ids[what])))
+    if not set(CONTROLS.values()) <= names | set(c for f in failing.values() for c in f):
+        missed.append(("names", sorted(names)))
     if base["inp"]["id"] in failing:
         missed.append(("uncorrupted", "none", failing[base["inp"]["id"]]))
     ctx.extra["qha_negative_controls"] = dict(base_case=base["_case"].id, corrupted_fields=sorted(CONTROLS),
@@ -473,17 +580,27 @@ def qha_part(ctx, forms, EV, NA):
     batch = 1200
     resid_max = {m: {} for m in TOL}
     n_events = 0
-    fit_failures = []
+    skipped = []
     first_ok_events = None
+    clause_fail = {}   # clause -> list of case ids
     for b0 in range(0, len(cases), batch):
         chunk = cases[b0:b0 + batch]
+        # the real code first: what every fit call did (scipy status, exception) is the environment's
+        # part of the input
+        raws = {}
+        for c in chunk:
+            c.realise(forms, EV, NA)
+            raws[c.id] = L.run_case(c, c.mode, EV, NA)
+            if c.skip:
+                skipped.append(c.id)
+        chunk = [c for c in chunk if not c.skip]
         # pass 1: the machine on the inputs (requirement on the specification; expected tables)
         mc = MC_QHA % ",\n".join(to_tla(c.to_tla()) for c in chunk)
         r1 = ctx.tlc("MC_Qha", cfg_text=CFG_QHA, extra_files={"MC_Qha.tla": mc}, requirement=False,
                      workers=1, coverage=(b0 == 0))
         if b0 == 0:
             ctx.extra["qha_action_coverage"] = {k: v[1] for k, v in r1.coverage.items()}
-            if any(v[1] == 0 for v in r1.coverage.values()) or len(r1.coverage) < 11:
+            if any(v[1] == 0 for v in r1.coverage.values()) or len(r1.coverage) < 12:
                 raise tlcmod.MachineryError("an action of Qha.tla never fired: %r" % r1.coverage)
         for inv, tr in r1.violations:
             st = tr[-1][1] if tr else {}
@@ -493,29 +610,26 @@ def qha_part(ctx, forms, EV, NA):
         if r1.violations:
             continue
         exp = parse_out(r1.stdout)
-        if len(exp) != len(chunk):
+        filespecs = None
+        for v in tlcmod.printed_values(r1.stdout):
+            if isinstance(v, list) and len(v) == 2 and v[0] == "FILESPECS":
+                filespecs = v[1]
+        if len(exp) != len(chunk) or not filespecs:
             raise tlcmod.MachineryError("expected tables for %d inputs, got %d" % (len(chunk), len(exp)))
-        # pass 2: the real code
+        # pass 2: projection of the real results, judged by TLC
         events = []
         for c in chunk:
-            c.realise(forms, EV, NA)
-            raw = L.run_case(c, c.mode, EV, NA)
             e = seqs(exp[c.id])
-            obs, exact, resid, mism, ident = L.project_case(c, raw, e, TOL[c.mode], EV, NA)
-            ctx.count(("qha", c.mode, c.eos, c.shape, c.P is None, len(c.T), c.tmax is None, c.poly_set,
-                       tuple(c.T), c.tmax, str(c.P)))
-            if raw["status"].startswith("error"):
-                if c.mode == "real" and raw["status"] == "error:RuntimeError" and "itting" in (raw["err"] or ""):
-                    # scipy's leastsq did not converge from phonopy's start values: outside the hypothesis
-                    fit_failures.append(c.id)
-                    continue
-                ctx.violation("qha:raises:" + raw["status"], "PhonopyQHA raised %s where the specification "
-                              "expects a result" % raw["status"], case_detail(c, dict(error=raw["err"])))
+            obs, exact, resid, mism = L.project_case(c, raws[c.id], e, TOL[c.mode], filespecs, EV, NA)
+            ctx.count(("qha", c.family, c.mode, c.eos, c.shape, c.P is None, len(c.T), c.tmax is None, c.poly_set,
+                       tuple(c.T), c.tmax, str(c.P), c.eldtype, c.voldtype, tuple(sorted(c.inject.items()))))
             for k, v in resid.items():
-                if np.isfinite(v):
+                if np.isfinite(v) and c.family == "main":
                     resid_max[c.mode][k] = max(resid_max[c.mode].get(k, 0.0), v)
             obs["bmrows"] = obs.pop("bm")
-            events.append(dict(inp=c.to_tla(), obs=obs, exact=bool(exact), _case=c, _mism=mism, _exp=exp[c.id]))
+            events.append(dict(inp=c.to_tla(), obs=obs, exact=bool(exact), _case=c, _mism=mism, _exp=exp[c.id],
+                               _err=raws[c.id]["err"]))
+        raws.clear()
         n_events += len(events)
         ev_by_id = {e["_case"].id: e for e in events}
         r2 = run_trace(ctx, events, QHA_INV + QHA_IMPL + QHA_CONF, False)
@@ -529,41 +643,46 @@ def qha_part(ctx, forms, EV, NA):
             for cid, names in failing.items():
                 for n in names:
                     per_clause.setdefault(n, []).append(cid)
-            chosen = []
-            for n, ids in sorted(per_clause.items()):
-                for cid in sorted(ids)[:2]:
-                    if cid not in chosen:
-                        chosen.append(cid)
-            if not chosen:  # a specification-side invariant
+                    clause_fail.setdefault(n, []).append(cid)
+            # main family: one violation per clause; other families: one per family, keyed by its leading clause
+            groups = {}
+            for n, ids in per_clause.items():
+                for cid in sorted(ids):
+                    fam = by_id[cid].family
+                    groups.setdefault((n, "main") if fam == "main" else ("*", fam), {}).setdefault(n, []).append(cid)
+            if not groups:  # a specification-side invariant
                 st = r2.trace[-1][1] if r2.trace else {}
                 cid = ((st.get("ev") or {}).get("inp") or {}).get("id")
-                chosen = [cid] if cid in ev_by_id else []
                 ctx.violation("qha:" + str(r2.violated), "C20: %s violated" % r2.violated,
                               dict(invariant=r2.violated, case=case_detail(by_id[cid]) if cid in by_id else None))
-            r4 = run_trace(ctx, [ev_by_id[cid] for cid in chosen[:12]], QHA_IMPL + QHA_CONF, True)
-            seen = set()
-            official = set(n for n, _ in r4.violations)
-            for n, ids in sorted(per_clause.items()):
-                if n not in official:  # TLC names only the first violated invariant of a state
-                    e = ev_by_id[sorted(ids)[0]]
-                    ctx.violation("qha:" + n, "C20 quasi-harmonic analysis: %s fails on the implementation "
-                                  "(%d of %d events)" % (n, len(ids), len(events)),
-                                  dict(invariant=n, failing_events=len(ids), events=len(events),
-                                       case=case_detail(e["_case"]), observed=e["obs"], expected=e["_exp"],
-                                       replay_mismatches=e["_mism"][:10]))
-            for inv, tr in r4.violations:
-                if inv in seen:
-                    continue
-                seen.add(inv)
-                st = tr[-1][1] if tr else {}
-                cid = ((st.get("ev") or {}).get("inp") or {}).get("id")
-                e = ev_by_id.get(cid)
-                ctx.violation("qha:" + inv, "C20 quasi-harmonic analysis: %s fails on the implementation "
-                              "(%d of %d events)" % (inv, len(per_clause.get(inv, [])), len(events)),
-                              dict(invariant=inv, failing_events=len(per_clause.get(inv, [])), events=len(events),
-                                   case=case_detail(e["_case"]) if e else None,
-                                   observed=e["obs"] if e else None, expected=e["_exp"] if e else None,
-                                   replay_mismatches=(e["_mism"][:10] if e else None)))
+            lead = ["ImplRefuses", "ImplFailedFitReported", "ImplCompletes", "ImplFitStart", "ImplFiles"]
+            plan = []
+            for (n, fam), clauses in sorted(groups.items()):
+                first = n if n != "*" else ([c for c in lead if c in clauses] + sorted(clauses))[0]
+                plan.append((first, fam, clauses, sorted(clauses[first])[0]))
+            official = {}
+            chosen = []
+            for first, fam, clauses, cid in plan:
+                if cid not in chosen:
+                    chosen.append(cid)
+            for c0 in range(0, min(len(chosen), 60), 20):
+                r4 = run_trace(ctx, [ev_by_id[cid] for cid in chosen[c0:c0 + 20]], QHA_IMPL + QHA_CONF, True)
+                for inv, tr in r4.violations:
+                    st = tr[-1][1] if tr else {}
+                    cid = ((st.get("ev") or {}).get("inp") or {}).get("id")
+                    official.setdefault(cid, set()).add(inv)
+            for first, fam, clauses, cid in plan:
+                e = ev_by_id[cid]
+                nfam = sum(1 for x in events if x["_case"].family == fam)
+                key = "qha:%s" % first if fam == "main" else "qha:%s:%s" % (fam.split(" ")[0], first)
+                ctx.violation(key, "C20 quasi-harmonic analysis: %s fails on the implementation for %d of %d inputs of "
+                              "family '%s'" % (first, len(clauses[first]), nfam, fam),
+                              dict(invariant=first, family=fam,
+                                   failing_clauses={k: len(v) for k, v in sorted(clauses.items())}, inputs_in_family=nfam,
+                                   named_by_tlc_as_first_violated_invariant=sorted(official.get(cid, [])),
+                                   all_failing_clauses_of_this_input=failing.get(cid),
+                                   case=case_detail(e["_case"]), phonopy_raised=e["_err"],
+                                   observed=e["obs"], expected=e["_exp"], replay_mismatches=e["_mism"][:10]))
         else:
             # replay direction: any difference from the expected tables must have been rejected above
             for e in events:
@@ -571,19 +690,24 @@ def qha_part(ctx, forms, EV, NA):
                     ctx.violation("qha:replay", "C20: real tables differ from the specification's",
                                   dict(case=case_detail(e["_case"]), mismatches=e["_mism"][:10]))
                     break
-    n_real = sum(1 for c in cases if c.mode == "real")
-    ctx.extra["qha_fit_not_converged"] = dict(cases=len(fit_failures), of_real=n_real, ids=fit_failures[:20])
-    if len(fit_failures) > max(3, 0.02 * n_real):
-        c = by_id[fit_failures[0]]
+    # fits that the environment let fail on exact data of the main family
+    main_real = [c for c in cases if c.mode == "real" and c.family == "main"]
+    failed = [c.id for c in main_real if c.fitplan and any(p != "ok" for p in (c.fitplan + c.bmplan))]
+    ctx.extra["qha_fit_not_converged_main_family"] = dict(cases=len(failed), of_real=len(main_real), ids=failed[:20])
+    ctx.extra["qha_skipped_local_minimum"] = dict(cases=len(skipped), ids=skipped[:20])
+    if len(failed) > max(3, 0.02 * len(main_real)):
         ctx.violation("qha:fit-fails", "scipy fit inside PhonopyQHA fails on exact EOS data in %d of %d cases"
-                      % (len(fit_failures), n_real), case_detail(c))
-    if first_ok_events and not ctx.violations:
+                      % (len(failed), len(main_real)), case_detail(by_id[failed[0]]))
+    ctx.extra["qha_failing_clauses"] = {k: len(v) for k, v in sorted(clause_fail.items())}
+    if first_ok_events and not any(v["key"].startswith("qha:") and ":F" not in v["key"] for v in ctx.violations):
         negative_controls(ctx, first_ok_events)
     ctx.traces += n_events
     ctx.extra["qha_events"] = n_events
     ctx.extra["qha_residuals_over_tolerance"] = {
-        m: {k: dict(observed=v, tolerance=TOL[m][k]) for k, v in d.items()} for m, d in resid_max.items()}
-    worst = max([v / TOL[m][k] for m, d in resid_max.items() for k, v in d.items()] or [0.0])
+        m: {k: dict(observed=v, tolerance=TOL[m].get(k.replace("file:", "").replace("cpfitfile", "cpfit"), 1e-9))
+            for k, v in d.items()} for m, d in resid_max.items()}
+    worst = max([v["observed"] / v["tolerance"] for d in ctx.extra["qha_residuals_over_tolerance"].values()
+                 for v in d.values()] or [0.0])
     ctx.extra["qha_worst_margin"] = worst
     if worst > 1e-2 and not ctx.violations:
         raise tlcmod.MachineryError("projection residual %.2g of the tolerance: tolerances not safe" % worst)
@@ -595,30 +719,42 @@ MC_QHAMODEL = """---- MODULE MC_QhaModel ----
 EXTENDS QhaModel
 MCSteps == {10, 20}
 MCShapes == {"V", "TV"}
+MCNvdQuick == {3, 4, 5}
+MCNvdAll == {1, 3, 4, 5, 7}
 ====
 """
 
 
 def model_part(ctx):
-    """Exhaustive run of the machine on the input family enumerated by TLC itself (QhaModel.tla)."""
-    maxn = 4 if ctx.quick else 5
+    """Exhaustive run of the machine on the input families enumerated by TLC itself (QhaModel.tla)."""
+    maxn = 3 if ctx.quick else 5
+    failn, deglen = (3, 2) if ctx.quick else (4, 3)
     cfg = """INIT Init
 NEXT Next
 CONSTANTS
- Inputs <- ModelInputs
+ Inputs <- AllInputs
  MaxN = %d
  Steps <- MCSteps
  ShapeSel <- MCShapes
  PressureSel <- %s
+ FailN = %d
+ DegLen = %d
+ NvdSel <- %s
 CHECK_DEADLOCK FALSE
-""" % (maxn, "SomePressures" if ctx.quick else "AllPressures") + "".join("INVARIANT %s\n" % i for i in QHA_INV)
+""" % (maxn, "SomePressures" if ctx.quick else "AllPressures", failn, deglen,
+       "MCNvdQuick" if ctx.quick else "MCNvdAll") + "".join("INVARIANT %s\n" % i for i in QHA_INV)
     r = ctx.tlc("MC_QhaModel", cfg_text=cfg, extra_files={"MC_QhaModel.tla": MC_QHAMODEL}, requirement=True,
                 workers=min(8, tlcmod.NCPU), what="C20: requirement violated on the specification's machine "
-                "(exhaustive grid family)")
+                "(exhaustive families)")
     ctx.extra["model_run"] = dict(
-        family="all temperature grids with 1..%d points and steps in {10,20} (every step pattern), every t_max on a "
-               "5 K raster from below the first to beyond the last temperature or none, shapes V/TV, pressures %s"
-               % (maxn, "none/2" if ctx.quick else "none/0/2/-3/2"),
+        family="ModelInputs: all temperature grids with 1..%d points and steps in {10,20} (every step pattern), every "
+               "t_max on a 5 K raster from below the first to beyond the last temperature or none, shapes V/TV, "
+               "pressures %s; FailInputs: uniform grids with 2..%d points, every assignment of fit outcomes "
+               "(ok/nonconv/RuntimeError/TypeError) to the temperatures and to the BulkModulus fit; DegenerateInputs: "
+               "every temperature sequence of length 1..%d over {0,10,20}, %s distinct volumes, int/float input, "
+               "electronic (T,V) rows = temperatures -1/0/+1"
+               % (maxn, "none/2" if ctx.quick else "none/0/2/-3/2", failn, deglen,
+                  "3/4/5" if ctx.quick else "1/3/4/5/7"),
         states=r.distinct, exhaustive=True)
 
 
@@ -656,7 +792,9 @@ def run(ctx):
     cases = qha_part(ctx, forms, EV, NA)
     tally = {}
     for c in cases:
-        for key, on in (("mode:" + c.mode, True), ("eos:" + c.eos, True), ("shape:" + c.shape, True),
+        for key, on in (("family:" + c.family, c.family != "main"), ("writes files", c.wf),
+                        ("heat capacity below cutoff at one temperature", any(r[0] <= 0 for r in c.cvtab)),
+                        ("mode:" + c.mode, True), ("eos:" + c.eos, True), ("shape:" + c.shape, True),
                         ("pressure acts", c.P is not None and c.P != 0), ("pressure none", c.P is None),
                         ("pressure zero", c.P is not None and c.P == 0),
                         ("t_max given", c.tmax is not None), ("polynomial tables (finite-difference definitions "
@@ -668,10 +806,12 @@ def run(ctx):
     ctx.extra["qha_case_tally"] = tally
     ctx.assumptions += [
         "B0' = 1 (pole of the Vinet and Murnaghan forms) excluded; B0 > 0, V0 > 0",
-        "volume grids of 5..11 points; fits are started by phonopy from its own initial guess and converge "
-        "(parameters B0 in 0.2..1 eV/A^3, B0' in 3..5.4, V0 inside the grid)",
-        "at least two temperatures (a single temperature trips phonopy's internal assertion; modelled, status 'assert')",
-        "heat capacities stay above the 1e-10 cutoff of the Gruneisen routine",
+        "main family: volume grids of 5..11 distinct points; parameters B0 in 0.2..1 eV/A^3, B0' in 3..5.4, V0 "
+        "inside the grid; what each fit call does (scipy status, exception) is observed and part of the input",
+        "a fit that ends with scipy status 1..4 at other parameters than the exact curve's (local minimum) is outside "
+        "the hypothesis: such inputs are counted and skipped",
+        "at least two surviving temperatures (a single one trips phonopy's internal assertion; modelled, status 'assert')",
+        "heat capacities are either <= 0 or >= 1e-3 V (never between 0 and the 1e-10 cutoff of the Gruneisen routine)",
         "EV and Avogadro of phonopy/units.py are taken as the base constants",
     ]
     ctx.exhaustive = False
